@@ -57,7 +57,7 @@ type Cfg struct {
 	CacheSize      int    `json:"cacheSize,omitempty"` // 0 => 1000
 	HFP            int    `json:"hfp,omitempty"`       // dispatcher hit-for-pass seconds (<=0: default 300)
 	ProxyTimeoutMs int    `json:"proxyTimeoutMs,omitempty"`
-	Store          string `json:"store,omitempty"` // "", "mem", "fault"
+	Store          string `json:"store,omitempty"` // "", "mem", "lazy" (ignores TTLs), "fault"
 	TwoServers     bool   `json:"twoServers,omitempty"`
 }
 
@@ -115,7 +115,7 @@ var (
 // a case that does not finish within wedgeAfter (real time; cases take
 // milliseconds) is wedged: some goroutine is blocked on a lock whose holder
 // never proceeds, so the bubble can never become quiescent.
-var wedgeAfter = 90 * time.Second
+var wedgeAfter = 40 * time.Second
 
 var onWedge func(sc Scenario)
 
@@ -563,6 +563,7 @@ type memRecord struct {
 
 type memStore struct {
 	mu     sync.Mutex
+	lazy   bool // ignores the TTL, like a store whose expiry job lags (pike re-checks the absolute expiry itself)
 	w      *world
 	data   map[string]memRecord
 	faults map[string][]string // call -> queued faults
@@ -595,7 +596,7 @@ func (m *memStore) Get(key []byte) ([]byte, error) {
 	f := m.nextFault("get")
 	now := m.w.nowMs()
 	rec, ok := m.data[string(key)]
-	if ok && rec.deadline != 0 && now >= rec.deadline {
+	if ok && rec.deadline != 0 && now >= rec.deadline && !m.lazy {
 		delete(m.data, string(key))
 		ok = false
 	}
@@ -650,7 +651,7 @@ func (m *memStore) has(key string) bool {
 	m.mu.Lock()
 	defer m.mu.Unlock()
 	rec, ok := m.data[key]
-	if ok && rec.deadline != 0 && m.w.nowMs() >= rec.deadline {
+	if ok && rec.deadline != 0 && m.w.nowMs() >= rec.deadline && !m.lazy {
 		return false
 	}
 	return ok
@@ -784,7 +785,7 @@ func runScenario(t *testing.T, sc Scenario, m *model) (tr *trace) {
 		w.cacheName = [2]string{"c1-" + tag, "c2-" + tag}
 		if sc.Cfg.Store != "" {
 			for i := range w.stores {
-				w.stores[i] = &memStore{w: w, data: map[string]memRecord{}, faults: map[string][]string{}}
+				w.stores[i] = &memStore{w: w, lazy: sc.Cfg.Store == "lazy", data: map[string]memRecord{}, faults: map[string][]string{}}
 				store.VerifRegisterStore("verifmem://"+w.cacheName[i], w.stores[i])
 			}
 		}
